@@ -35,49 +35,29 @@ Proof. exact rc_cast_noop. Qed.
 Theorem C13_gen_refs : forall ENV W I u p, TG.tw_contract W I ->
   (valid_ref I p -> GT.wrap_ref ENV W I u u p = Ret p /\ GT.wrap_mut ENV W I u u p = Ret p) /\
   (valid_ref W p -> GT.peel_ref ENV W I u u p = Ret p /\ GT.peel_mut ENV W I u u p = Ret p).
-Proof.
-  intros ENV W I u p HC. split; intros Hv; split.
-  - exact (TG.wrap_ref_id ENV W I u HC p Hv). - exact (TG.wrap_mut_id ENV W I u HC p Hv).
-  - exact (TG.peel_ref_id ENV W I u HC p Hv). - exact (TG.peel_mut_id ENV W I u HC p Hv).
-Qed.
+Proof. exact TG.bundle_refs. Qed.
 
 Theorem C13_gen_roundtrip_ref : forall ENV W I u p, TG.tw_contract W I ->
   (valid_ref I p -> (q <- GT.wrap_ref ENV W I u u p ;; GT.peel_ref ENV W I u u q) = Ret p) /\
   (valid_ref W p -> (q <- GT.peel_ref ENV W I u u p ;; GT.wrap_ref ENV W I u u q) = Ret p).
-Proof.
-  intros ENV W I u p HC. split; intros Hv.
-  - exact (TG.wrap_peel_ref ENV W I u HC p Hv). - exact (TG.peel_wrap_ref ENV W I u HC p Hv).
-Qed.
+Proof. exact TG.bundle_roundtrip_ref. Qed.
 
 Theorem C13_gen_slices : forall ENV W I s, TG.tw_contract W I ->
   (valid_slice I s -> GT.wrap_slice ENV W I s = Ret s /\ GT.wrap_slice_mut ENV W I s = Ret s) /\
   (valid_slice W s -> GT.peel_slice ENV W I s = Ret s /\ GT.peel_slice_mut ENV W I s = Ret s).
-Proof.
-  intros ENV W I s HC. split; intros Hv; split.
-  - exact (TG.wrap_slice_id ENV W I HC s Hv). - exact (TG.wrap_slice_mut_id ENV W I HC s Hv).
-  - exact (TG.peel_slice_id ENV W I HC s Hv). - exact (TG.peel_slice_mut_id ENV W I HC s Hv).
-Qed.
+Proof. exact TG.bundle_slices. Qed.
 
 Theorem C13_gen_values : forall ENV W I v, TG.tw_contract W I ->
   (N.of_nat (List.length v) = sz I -> GT.wrap ENV W I v = Ret v) /\
   (N.of_nat (List.length v) = sz W -> GT.peel ENV W I v = Ret v).
-Proof.
-  intros ENV W I v HC. split; intros Hl.
-  - exact (TG.wrap_id ENV W I HC v Hl). - exact (TG.peel_id ENV W I HC v Hl).
-Qed.
+Proof. exact TG.bundle_values. Qed.
 
 Theorem C13_gen_containers : forall ENV W I u c,
   GA.wrap_vec ENV W I c = Ret c /\ GA.peel_vec ENV W I c = Ret c /\
   GA.wrap_box ENV W I u u c = Ret c /\ GA.peel_box ENV W I u u c = Ret c /\
   GA.wrap_rc ENV W I u u c = Ret c /\ GA.peel_rc ENV W I u u c = Ret c /\
   GA.wrap_arc ENV W I u u c = Ret c /\ GA.peel_arc ENV W I u u c = Ret c.
-Proof.
-  intros ENV W I u c.
-  exact (conj (TG.wrap_vec_id ENV W I c) (conj (TG.peel_vec_id ENV W I c)
-        (conj (TG.wrap_box_id ENV W I u c) (conj (TG.peel_box_id ENV W I u c)
-        (conj (TG.wrap_rc_id ENV W I u c) (conj (TG.peel_rc_id ENV W I u c)
-        (conj (TG.wrap_arc_id ENV W I u c) (TG.peel_arc_id ENV W I u c)))))))).
-Qed.
+Proof. exact TG.bundle_containers. Qed.
 
 Theorem C13_gen_guards : forall ENV W I uW uI p c s v,
   (uW <> uI -> GT.wrap_ref ENV W I uW uI p = Panic W_assert /\ GT.peel_ref ENV W I uW uI p = Panic W_assert /\
@@ -85,13 +65,7 @@ Theorem C13_gen_guards : forall ENV W I uW uI p c s v,
   ((sz I <> sz W \/ al I <> al W) ->
       GT.wrap_slice ENV W I s = Panic W_assert /\ GT.peel_slice ENV W I s = Panic W_assert /\
       GT.wrap ENV W I v = Panic W_assert /\ GT.peel ENV W I v = Panic W_assert).
-Proof.
-  intros ENV W I uW uI p c s v. split; intros H.
-  - destruct (TG.ptr_guard_panics ENV W I uW uI p H) as (a & _ & b & _).
-    destruct (TG.cont_guard_panics ENV W I uW uI c H) as (d & _ & _ & e & _). auto.
-  - destruct (TG.slice_guard_panics ENV W I s H) as (a & b & _).
-    destruct (TG.value_guard_panics ENV W I v H) as (d & e). auto.
-Qed.
+Proof. exact TG.bundle_guards. Qed.
 
 Example C13_gen_nonvacuous :
   TG.tw_contract (mkTy 4 4) (mkTy 4 4) /\ valid_ref (mkTy 4 4) (mkPtr 4096 4) /\
